@@ -64,7 +64,27 @@ def effective_addr(radio, p):
     return [radio.reg[0x0A + p]] + list(radio.addr[0x0B][1:])
 
 
-def o1_route_step(ctx, lx, ld, custom, multicast):
+def listeners_ok(ctx, radio, n, multicast, prefix, suffix, what, p0_level=None):
+    """the six effective pipe addresses are the reference ones (pipe 0 = address of level `p0_level` when overridden)"""
+    ctx.check(radio.reg[2] == 0x3F, what + ": all six pipes open")
+    for p in range(6):
+        want = NS.phys(n, p, multicast, prefix, suffix)
+        if p == 0 and p0_level is not None:
+            want = NS.level_addr(p0_level, prefix, suffix)
+        ctx.check(bytes_eq(effective_addr(radio, p), want), what + ": pipe %d listens on the reference address" % p)
+    ctx.check(radio.reg[3] == 3, what + ": 5-byte addresses")
+
+
+def override_level(ctx, net, mlvl):
+    """multicast_level = symbolic L: changes the level subscribed to on pipe 0 and nothing about unicast routing"""
+    if mlvl is None:
+        return None
+    L = ctx.int("multicast_level", -1, 6)
+    net.multicast_level = L
+    return s_ite(L < 0, 0, s_ite(L > 4, 4, L))
+
+
+def o1_route_step(ctx, lx, ld, custom, multicast, mlvl=None):
     from circuitpython_nrf24l01.network.structs import RF24NetworkHeader
     clock = fresh_env(ctx)
     x = sym_addr(ctx, "X", lx)
@@ -77,6 +97,7 @@ def o1_route_step(ctx, lx, ld, custom, multicast):
     net.allow_multicast = multicast
     net.node_address = x
     ctx.check(net.node_address == x, "node_address assignment took effect")
+    p0 = override_level(ctx, net, mlvl)
     sent0 = len(radio.sent)
     body = ctx.bytes("body", 2)
     ok = net.send(RF24NetworkHeader(d, 0), body)
@@ -98,10 +119,13 @@ def o1_route_step(ctx, lx, ld, custom, multicast):
     ctx.check(s_and(data[0] | (data[1] << 8) == x, data[2] | (data[3] << 8) == d), "header says from X to D")
     ctx.check(bytes_eq(data[8:], body), "message bytes unmodified")
     ctx.observe("tx_addr", sent[0]["addr"])
+    # "one that the intended next hop listens on and that no other node listens on" must survive traffic: after its own
+    # transmission X is back on exactly its reference addresses
+    listeners_ok(ctx, radio, x, multicast, prefix, suffix, "after the routing step", p0)
     ctx.reached()
 
 
-def o2_listener(ctx, lvl, custom, multicast):
+def o2_listener(ctx, lvl, custom, multicast, mlvl=None):
     clock = fresh_env(ctx)
     n = sym_addr(ctx, "N", lvl)
     radio, net = new_net(clock, 0)
@@ -109,14 +133,11 @@ def o2_listener(ctx, lvl, custom, multicast):
     set_bytes(ctx, net, prefix, suffix)
     net.allow_multicast = multicast
     net.node_address = n
-    ctx.check(radio.reg[2] == 0x3F, "all six pipes open")
-    for p in range(6):
-        want = NS.phys(n, p, multicast, prefix, suffix)
-        ctx.check(bytes_eq(effective_addr(radio, p), want), "pipe %d listens on the reference address" % p)
-    ctx.check(radio.reg[3] == 3, "5-byte addresses")
+    p0 = override_level(ctx, net, mlvl)
+    listeners_ok(ctx, radio, n, multicast, prefix, suffix, "after node_address", p0)
     ctx.observe("pipes", [effective_addr(radio, p) for p in range(6)])
     ctx.check(net.parent == NS.parent(n) if lvl else True, "parent attribute")
-    ctx.check(net.multicast_level == lvl, "level attribute")
+    ctx.check(net.multicast_level == (lvl if p0 is None else p0), "level attribute")
     ctx.reached()
 
 
@@ -182,10 +203,14 @@ def jobs(tier):
                 for mc in ((True,) if tier == "quick" else (True, False)):
                     out.append(Job("O1-routing-step", o1_route_step, dict(lx=lx, ld=ld, custom=custom, multicast=mc),
                                    cost=(1 + lx) * (1 + ld) * (4 if custom else 1)))
+            # the multicast_level override moves pipe 0 to another level and must leave unicast routing alone
+            out.append(Job("O1-routing-step", o1_route_step, dict(lx=lx, ld=ld, custom=False, multicast=True, mlvl="sym"),
+                           cost=(1 + lx) * (1 + ld) * 2))
     for lvl in range(5):
         for custom in (False, True):
             for mc in (True, False):
                 out.append(Job("O2-listener", o2_listener, dict(lvl=lvl, custom=custom, multicast=mc), cost=lvl + 1))
+            out.append(Job("O2-listener", o2_listener, dict(lvl=lvl, custom=custom, multicast=True, mlvl="sym"), cost=lvl + 2))
     for la in range(5):
         for lb in range(5):
             for mc in (True, False):
